@@ -310,6 +310,25 @@ func (v *vc) calleeEnv(fr *frame, st *state, fc *funcContract, callee *ssa.Funct
 				se.names[p.Name()] = tv{term: args[i], typ: p.Type()}
 			}
 		}
+		if len(callee.Params) == 0 && len(args) > 0 {
+			// function without a body (loaded from export data): bind by signature; the receiver is also "self"
+			sig := callee.Signature
+			k := 0
+			if r := sig.Recv(); r != nil {
+				se.names["self"] = tv{term: args[0], typ: r.Type()}
+				if r.Name() != "" && r.Name() != "_" {
+					se.names[r.Name()] = tv{term: args[0], typ: r.Type()}
+				}
+				k = 1
+			}
+			for i := 0; i < sig.Params().Len() && k+i < len(args); i++ {
+				p := sig.Params().At(i)
+				if p.Name() != "" && p.Name() != "_" {
+					se.names[p.Name()] = tv{term: args[k+i], typ: p.Type()}
+				}
+				se.names[fmt.Sprintf("p%d", i)] = tv{term: args[k+i], typ: p.Type()}
+			}
+		}
 		// free variables of closures are visible by name
 		if mc, ok := c.Value.(*ssa.MakeClosure); ok {
 			for i, fv := range callee.FreeVars {
